@@ -6,7 +6,7 @@ import ast
 from ..callgraph import CallGraph
 from ..cfg import CFG, ENTRY, EXIT
 from ..mini import must_fire
-from .fc import FCM, FC, dotted, own_walk, calls, call_name, resolve_ext, local_assignments, destructive_sinks
+from .fc import returned_name, FCM, FC, dotted, own_walk, calls, call_name, resolve_ext, local_assignments, destructive_sinks
 
 EXPLANATION = (
     "Structural rules over the download path of the file cache, decided on the syntax tree and per-function CFGs: "
@@ -105,7 +105,7 @@ def run(ctx):
                 for i in ifs:
                     in_body = a in [x for b in i.body for x in ast.walk(b)]
                     else_pops = any(isinstance(c, ast.Call) and isinstance(c.func, ast.Attribute) and c.func.attr in (
-                        "pop", "remove") and (dotted(c.func.value) or "") == "filepaths" for b in i.orelse for c in ast.walk(b))
+                        "pop", "remove") and (dotted(c.func.value) or "") == (returned_name(gi.node) or "?") for b in i.orelse for c in ast.walk(b))
                     if in_body and else_pops:
                         ok = True
         ok_all = ok_all and ok
@@ -151,7 +151,12 @@ def run(ctx):
               lambda sub, mp: paired_removal_rule(sub, "R19.2", mp, [f for f in mp.all_functions if f.cls is not None]),
               "file deletion without entry removal")
     # validation failure leads to a re-download: the invalid branch must reach the miss construction
-    val_ifs = [n for n in own_walk(gm.node) if isinstance(n, ast.If) and ast.unparse(n.test) == "not valid_entry"]
+    # the flag is whatever name guards the construction of the miss (`if not <flag>: ... CacheMiss(...)`)
+    miss_ifs = [n for n in own_walk(gm.node) if isinstance(n, ast.If) and isinstance(n.test, ast.UnaryOp) and isinstance(n.test.op, ast.Not)
+                and isinstance(n.test.operand, ast.Name) and any(isinstance(c, ast.Call) and call_name(c) == "CacheMiss"
+                                                                 for b in n.body for c in ast.walk(b))]
+    flag = miss_ifs[0].test.operand.id if len(miss_ifs) == 1 else None
+    val_ifs = [n for n in own_walk(gm.node) if isinstance(n, ast.If) and flag is not None and ast.unparse(n.test) == "not " + flag]
     ctx.expect(len(val_ifs) >= 2, "R19.2", "get_cache_misses[rejected entry is re-fetched]",
                "an entry rejected by validation is both dropped and scheduled for download", gm.loc())
 
